@@ -208,6 +208,30 @@ CLAIMED = {
        "Trusted: Coq kernel, translator/res2gallina.py (regex), hand-written Resources.v, sfdrive + ASan hooks / LSan / procfs.",
   technique="Coq proof (ledger invariant by induction over allocation histories; finite inventory regenerated from the source) + ledger correspondence + leak oracle",
   design_ref="DESIGN.md section 5 C16"),
+ "C15": dict(
+  text="PARTIAL. Theorems (Coq): for EVERY request and EVERY sequence of kernel answers (EIO, EINTR, zero, partial, full) the transfer loops of psf_fread / psf_fwrite return a "
+       "count in [0, items], report only whole items that really moved, and make at most moved + interrupts + 1 calls (FaultIO.v, induction over the answer list); the read / "
+       "write wrappers return inside [0, n] and advance the position by exactly the returned count for ANY codec transfer count, the frame count never shrinks, items before the "
+       "write position survive a write accepted only partly (Api.v); the header cache stays inside its allocation for any I/O outcome (HeaderCache.v). Ties: K on the transfer "
+       "loops (link-time wrap of read / write) and the header cache; S with the model driven by the observed transfer counts. Fault enumeration (complete): every virtual I/O "
+       "callback index 1..K x 5 fault kinds x {persistent, single} for write-close / open-read-seek-close / rdwr workloads of the representative formats, plus /dev/full, EBADF and "
+       "truncated pipe streams, under ASan/UBSan/LSan, guard bands, per-call time budget, per-handle resource ledger, snapshot of the bytes accepted before the first fault.",
+  note="Not proved: the block codecs' buffers, the per-format header parsers / writers, memory safety, the time bound (enumerated only). Four endless parse loops found by the "
+       "enumeration were repaired (fix: commits); one finding is recorded (header rewrite ignores failed seeks). Trusted: Coq kernel, hand-written FaultIO.v / Api.v / HeaderCache.v "
+       "(K / S ties), sfdrive's fault-injecting virtual I/O.",
+  technique="Coq proof (transfer loops, wrappers, header cache total under any I/O outcome) + K/S correspondence + complete fault-point enumeration of representative workloads",
+  design_ref="DESIGN.md section 5 C15"),
+ "C19": dict(
+  text="Theorems (Coq): in a system of per-handle private states plus process-wide cells that no per-handle result reads, ANY interleaving of calls on any number of handles gives "
+       "every handle the results and final state of its solo run (induction over the interleaving), independent of what the cells held before (earlier library use); calls on "
+       "other handles leave a handle's private state (its error state) untouched. The hypothesis is tied to the code by the inventory of the library's writable globals, "
+       "regenerated with nm from the build on every run and proved covered by the classification (3 diagnostics, 3 scratch buffers, 1 generator, tables); psf_rand_int32's step is "
+       "proved injective and in range and K-tied. Oracle: 2..8 workloads (every stateful codec, RDWR, failing calls / opens) interleaved (round robin, PRNG, sequential, same "
+       "workload twice, ALL merges of two short ALAC scripts) vs solo runs in fresh processes; measured write footprint on every writable global.",
+  note="The step from 'the inventory has only these objects' to 'no per-handle result reads them' is by reading the code for the classified objects plus the oracle; a new static "
+       "breaks the inventory theorem. Trusted: Coq kernel, nm, hand-written Isolation.v, sfdrive.",
+  technique="Coq proof (non-interference by induction over interleavings) + regenerated globals inventory + K tie on the generator + interleaved-vs-solo oracle",
+  design_ref="DESIGN.md section 5 C19"),
  "C14": dict(
   text="Theorems (Coq) over FileIO.v, the route switch of psf_fseek / psf_fread / psf_ftell / psf_get_filelen / psf_fclose: for EVERY history of seeks (SET/CUR), "
        "reads and tells that stay inside the sound file the descriptor route at fileoffset |pre| on pre ++ F ++ post returns exactly what the virtual route "
